@@ -15,7 +15,8 @@ F0 = 193.1e12
 # ---- world ---------------------------------------------------------------------------------------------
 # OMS 0: X->Y   OMS 1: Y->X (reverse of 0)   OMS 2: Y->Z (UNUSABLE sub-band)   OMS 3: Z->Y (pre-occupied run)
 N_MIN, N_MAX = -24, 23           # 48 slots; guard band 4 slots on each side
-WORLDS = ['empty', 'preloaded_a', 'preloaded_b', 'tight', 'aligned']
+WORLDS = ['empty', 'preloaded_a', 'preloaded_b', 'tight', 'aligned', 'wide_guard']
+# 'wide_guard': every map is declared with a 50 GHz guard band (8 slots) instead of the default 25 GHz
 # 'aligned': the four maps are created with different extents and brought to one grid by align_grids (padding on the left,
 # on the right, on both sides) before the first request
 
@@ -82,7 +83,8 @@ def make_world(name):
             own[:4] = [BitmapValue.UNUSABLE] * 4
         if hi:
             own[-4:] = [BitmapValue.UNUSABLE] * 4
-        oms.update_spectrum(f_min + lo * GRID, f_max - hi * GRID, existing_spectrum=own)
+        kw = {'guardband': 50e9} if name == 'wide_guard' else {}
+        oms.update_spectrum(f_min + lo * GRID, f_max - hi * GRID, existing_spectrum=own, **kw)
         oms_list.append(oms)
     if name == 'aligned':
         from gnpy.topology.spectrum_assignment import align_grids
@@ -367,7 +369,7 @@ def run_case(case):
 def main(rep, tier, seed):
     full = list(range(len(REQS)))
     if tier == 'quick':
-        plans = [(3, QUICK_REQS, sorted({WORLDS[seed % 4], WORLDS[(seed + 1) % 4], 'aligned'}))]
+        plans = [(3, QUICK_REQS, sorted({WORLDS[seed % 4], WORLDS[(seed + 1) % 4], 'aligned', 'wide_guard'}))]
     else:
         plans = [(3, full, WORLDS), (4, QUICK_REQS[:9], WORLDS)]
     cases = []
